@@ -436,6 +436,32 @@ def r7_11(ctx):
         if isinstance(par, ast.BinOp) and isinstance(par.op, ast.Add):
             other = par.right if par.left is x else par.left
             ok = norm(_inl(other, sd)) == f"self._get_padding_width({colp}._index)"
+        if not ok and isinstance(par, ast.Assign) and par.value is x and len(par.targets) == 1 and isinstance(par.targets[0], ast.Name):
+            # copied into a local that gets the padding added (under its not-None test) before it is used
+            loc = par.targets[0].id
+            augs = [a for a in walk_local(f.node) if isinstance(a, ast.AugAssign) and isinstance(a.op, ast.Add) and isinstance(a.target, ast.Name) and a.target.id == loc and norm(_inl(a.value, sd)) == f"self._get_padding_width({colp}._index)"]
+            others = [a for a in walk_local(f.node) if isinstance(a, (ast.Assign, ast.AugAssign)) and a is not par and a not in augs and any(isinstance(t, ast.Name) and t.id == loc for t in (a.targets if isinstance(a, ast.Assign) else [a.target]))]
+            if len(augs) == 1 and not others:
+                g711 = cfgmod.build(f.node)
+                uses = [u for u in walk_local(f.node) if isinstance(u, ast.Name) and u.id == loc and isinstance(u.ctx, ast.Load) and not isinstance(m.parent_of.get(u), ast.Compare)]
+                aug_nodes = set(g711.nodes_of(augs[0]))
+
+                def stmt_of_(u):
+                    while not isinstance(u, ast.stmt):
+                        u = m.parent_of[u]
+                    return u
+                facts_ok = True
+                for u in uses:
+                    su = stmt_of_(u)
+                    if su is augs[0]:
+                        continue
+                    # reachable from the copy without the += only when the value is None (the not-None branch always adds)
+                    r_ = g711.reach(g711.nodes_of(par), avoid=aug_nodes)
+                    if set(g711.nodes_of(su)) & r_:
+                        fa = {(norm(t0), v0) for t0, v0 in g711.branch_facts(g711.nodes_of(augs[0])[0])}
+                        if not ({(f"{loc} is not None", True), (f"{loc} is None", False)} & fa):
+                            facts_ok = False
+                ok = facts_ok
         ctx.check(ok, f.fq, short(par if isinstance(par, ast.AST) else x), where, f"`{norm(x)}` enters the measurement with the padding added",
                   f"`{norm(x)}` is used as a padded width in `{short(par) if par is not None else norm(x)}`: the column's configured width is the width of its content, the measurement includes the padding - a column with max_width=1 and the default padding is rendered with no room for its content and every character of the cell disappears")
     ctx.floor(n, 3, "uses of column.width / min_width / max_width in _measure_column")
